@@ -18,7 +18,9 @@ func init() {
 			"EOF() is offset >= pkgEnd; nothing outside the reader indexes data; (R2) every reflect.SliceHeader whose Data is the reader's DataPtr() gets a Len that is " +
 			"(i) a difference of two reader offsets, (ii) a counter incremented only on the success side of ReadByte, or (iii) a value that on every incoming edge is 0 " +
 			"under EOF(), pkgEnd - Offset() under !EOF(), or bounded by a test against pkgEnd - Offset(); Cap equals Len (found F7); (R3) every parseResult returned by a " +
-			"call is used (returned, compared or merged), with one named exception.",
+			"call is used (returned, compared or merged), with one named exception; (R4) structural conditions of the termination of the merge/relocate loop: every iteration " +
+			"increments resolvePasses, relocateNamedObjects asks for another pass only under resolvePasses <= maxResolvePasses, mergeScopeDirectives only in the first pass or when " +
+			"the previous relocate pass moved something, and that progress counter is reset for every pass.",
 		EnumRule: "obligations per rule and construct",
 		Assumptions: []string{"invariant offset <= len(data) and pkgEnd <= len(data) follow inductively from R1's store forms",
 			"named exception C12.R3: parseStrictTermArg discards nextOpcode()'s result after peekNextOpcode() succeeded on the same stream position",
@@ -33,6 +35,8 @@ func init() {
 			{Name: "parser moves pkgEnd directly", File: "kernel/device/acpi/aml/parser.go", Old: "\t\t\tcurObj.pkgEnd = origOffset + pkgLen\n\t\t\tp.r.SetOffset(curObj.pkgEnd)\n", New: "\t\t\tcurObj.pkgEnd = origOffset + pkgLen\n\t\t\tp.r.pkgEnd = curObj.pkgEnd\n\t\t\tp.r.SetOffset(curObj.pkgEnd)\n", Expect: "C12.R1"},
 			{Name: "string length counted before the read is checked", File: "kernel/device/acpi/aml/parser.go", Old: "\t\tnext, err = p.r.ReadByte()\n\t\tif err != nil {\n\t\t\tres = parseResultFailed\n\t\t\tbreak\n\t\t}\n\n\t\tif next == 0x00 {", New: "\t\tnext, err = p.r.ReadByte()\n\t\tstr.Len++\n\t\tif err != nil {\n\t\t\tres = parseResultFailed\n\t\t\tbreak\n\t\t}\n\n\t\tif next == 0x00 {", Expect: "C12.R2"},
 			{Name: "parse failure of an argument dropped", File: "kernel/device/acpi/aml/parser.go", Old: "\t\tcurObj.value, res = p.parseNumConstant(8)\n\tcase pOpStringPrefix:", New: "\t\tcurObj.value, _ = p.parseNumConstant(8)\n\tcase pOpStringPrefix:", Expect: "C12.R3"},
+			{Name: "progress counter reset once instead of per pass", File: "kernel/device/acpi/aml/parser.go", Old: "\tif objIndex == 0 {\n\t\tp.relocatedObjects = 0\n\t}\n", New: "", Expect: "C12.R4"},
+			{Name: "pass bound not consulted", File: "kernel/device/acpi/aml/parser.go", Old: "\t\t\t\tif p.resolvePasses > maxResolvePasses {", New: "\t\t\t\tif p.resolvePasses > maxResolvePasses && p.relocatedObjects == 0 {", Expect: "C12.R4"},
 			{Name: "byte list clamp compares against the stream end", File: "kernel/device/acpi/aml/parser.go", Old: "} else if remaining := p.r.pkgEnd - p.r.Offset(); dataLen > remaining {", New: "} else if remaining := p.streamEnd; dataLen > remaining {", Expect: "C12.R2"},
 		},
 	})
@@ -475,6 +479,9 @@ func runC12(c *Ctx) {
 		}
 	}
 	_ = strings.Join
+
+	// ================= R4 =================
+	c12BoundedPasses(c)
 }
 
 // isIncrementOf: the store writes load(addr)+1 back to the same address.
